@@ -175,6 +175,8 @@ def run_cases(ctx, cases):
 
 
 def sig(c, region, dk, im, m):
+    if im.get("exit") == "-9":
+        return "does-not-terminate"       # the runner's timeout expired: "terminates with exit code 0, 1 or 2" is violated
     if im.get("rtpanic") == "yes":
         return "panic:" + (c.get("site") or "?")       # keyed by panicking function + message class, whatever the region
     if region.startswith("F_"):
